@@ -106,6 +106,7 @@ func variant(td *TestDir, r *common.RNG) *TestDir {
 			n.Files = append(n.Files, File{f.Name, data})
 		}
 		n.Files = append(n.Files, File{"only-in-second.txt", []byte("B\n")})
+		n.settle()
 		v.Mods = append(v.Mods, n)
 	}
 	v.Mods = append(v.Mods, Mod{Path: "twosrv.example/only-b", Vers: "v1.0.0", Layout: "txt",
